@@ -532,10 +532,56 @@ def _s(x):
     return '"' + str(x).replace('\\', '\\\\').replace('"', '\\"') + '"'
 
 
+# ---- raw GIL API calls (round 4): a release written by hand instead of the RAII `gil_release`
+
+_RAW_RELEASE = re.compile(r'\b(PyEval_SaveThread|Py_BEGIN_ALLOW_THREADS|Py_UNBLOCK_THREADS|PyGILState_Release)\b')
+_RAW_ACQUIRE = re.compile(r'\b(PyEval_RestoreThread|Py_END_ALLOW_THREADS|Py_BLOCK_THREADS|PyGILState_Ensure)\b')
+# anything between a hand-written release and its re-acquire that can leave the function: `return`, `throw`, `goto`,
+# and the dispatch macros (their `catch` clauses `return NULL`)
+_RAW_EXIT = re.compile(r'\b(return|throw|goto|SAFE_SWITCH_ON\w*|HANDLE\w*|CATCH_PYTHON_EXCEPTIONS\w*)\b')
+
+
+def extract_raw_gil_sites(repo: Path):
+    """every use of the interpreter's own release API outside the body of `struct gil_release` (utils.hpp): file, function,
+    line, the API name, number of re-acquire calls after it in the same function, number of constructs between the release and
+    the LAST of those re-acquires through which control can leave the function with the lock still released"""
+    out = []
+    for g in CPP_GLOBS:
+        for p in sorted(repo.glob(g)):
+            rel = str(p.relative_to(repo))
+            raw = p.read_text(errors='replace')
+            text = strip_cpp(raw)
+            skip = []
+            for m in re.finditer(r'\bstruct\s+gil_release\s*\{', text):
+                skip.append((m.start(), _match_brace(text, m.end() - 1)))
+            try:
+                _objs, bodies, _t, _macros, _tpp = scan_cpp(p, rel)
+            except Exception:
+                bodies = []
+            for m in _RAW_RELEASE.finditer(text):
+                if any(a <= m.start() <= b for a, b in skip):
+                    continue
+                body = [b for b in bodies if b[0] < m.start() < b[1]]
+                if body:
+                    a, b, header = body[0]
+                    hm = re.search(r'([A-Za-z_]\w*)\s*\([^()]*(?:\([^()]*\)[^()]*)*\)\s*(?:const\s*)?$', header, flags=re.S)
+                    func = hm.group(1) if hm else '?'
+                    rest = text[m.end():b]
+                else:                       # inside a macro definition or at namespace scope: the rest of the file
+                    func, rest = '?', text[m.end():]
+                acq = list(_RAW_ACQUIRE.finditer(rest))
+                region = rest[:acq[-1].start()] if acq else rest
+                exits = len(_RAW_EXIT.findall(region))
+                out.append(dict(file=rel, func=func, line=text.count('\n', 0, m.start()) + 1, api=m.group(1),
+                                restores=len(acq), exits=exits))
+    return out
+
+
 def generate(repo: Path, outdir: Path) -> dict:
     objs = extract_cpp_objects(repo)
     pys = extract_py_globals(repo)
     sites = extract_gil_sites(repo)
+    raws = extract_raw_gil_sites(repo)
     L = ['/- GENERATED by translator/statics.py from the current /repo sources. Do not edit. -/',
          'namespace Mahotas.Generated', '',
          '/-- an object with static storage duration (C++) or a module global written by a function (Python) -/',
@@ -577,11 +623,28 @@ def generate(repo: Path, outdir: Path) -> dict:
         f'{len(s["interp_calls"])}, {s["wraps"]}, {_b(s["caught"])}, {s["helper_wraps"]}⟩' for s in sites))
     L.append(']')
     L.append('')
+    L.append('/-- a release of the interpreter lock written by hand (`PyEval_SaveThread`, `Py_BEGIN_ALLOW_THREADS`, …) outside the RAII')
+    L.append('class `gil_release`: `restores` = re-acquire calls after it in the same function, `exits` = constructs between the')
+    L.append('release and the last re-acquire through which control can leave with the lock released (`return`, `throw`, `goto`,')
+    L.append('the dispatch macros whose catch clauses return) -/')
+    L.append('structure RawGilSite where')
+    L.append('  file : String')
+    L.append('  func : String')
+    L.append('  line : Nat')
+    L.append('  api : String')
+    L.append('  restores : Nat')
+    L.append('  exits : Nat')
+    L.append('  deriving Repr, DecidableEq')
+    L.append('')
+    L.append('def rawGilSites : List RawGilSite := [')
+    L.append(',\n'.join(f'  ⟨{_s(r["file"])}, {_s(r["func"])}, {r["line"]}, {_s(r["api"])}, {r["restores"]}, {r["exits"]}⟩' for r in raws))
+    L.append(']')
+    L.append('')
     L.append('end Mahotas.Generated')
     L.append('')
     changed = _write_if_changed(outdir / 'Statics.lean', '\n'.join(L))
     return dict(statics_cpp=len(objs), statics_cpp_nonconst=sum(1 for o in objs if not o['const']),
-                statics_py=len(pys), gil_sites=len(sites),
+                statics_py=len(pys), gil_sites=len(sites), raw_gil_sites=len(raws),
                 gil_sites_by_idiom={k: sum(1 for s in sites if s['idiom'] == k) for k in 'abc'},
                 gil_sites_wrappers_inside=sum(1 for s in sites if s['wraps']),
                 gil_sites_helper_wrappers_inside=sum(1 for s in sites if s['helper_wraps']),
